@@ -216,7 +216,9 @@ pub fn c06_strategy(t: Tier) -> BoxedStrategy<Value> {
         log_uniform(maxn),
         prop_oneof![Just(0u8), Just(1u8), Just(2u8), Just(4u8), Just(5u8)],
         0u8..48,
-        0u8..3,
+        // links written within band+1 consecutive epochs: a structure built at once, one built
+        // over a few dozen epochs, one that has grown over hundreds of epochs
+        prop_oneof![6 => 0u8..3, 2 => 3u8..6, 3 => prop_oneof![Just(9u8), Just(13u8), Just(20u8), Just(40u8), Just(60u8), Just(100u8), Just(180u8), Just(255u8)]],
         any::<bool>(),
         3u8..41,
         0u8..21,
@@ -265,7 +267,10 @@ pub fn exec_c06(_prop: &str, v: &Value) -> Report {
                 "n={} shape={} stamped={} band={} wait={} flush_delay={} align={}: after {} epoch advances since the flush only {} of {} nodes were destructed (bound {} = 40 + 16*ceil(n/1024))",
                 c.n, c.shape, c.stamped, c.band, c.wait, c.flush_delay, c.align, epoch() - e1, DROPPED.load(SeqCst), expect, bound
             );
-            violation("C06", "O-latency", "O-latency/not-reclaimed-within-bound", &d);
+            // (links written in many different epochs are a class of their own: see the open
+            // known finding; the class is defined by how the case was built, not by what it did)
+            let sig = if c.band > 5 { "O-latency/not-reclaimed-within-bound/links-from->6-epochs" } else { "O-latency/not-reclaimed-within-bound" };
+            violation("C06", "O-latency", sig, &d);
         }
         round();
         rounds += 1;
@@ -276,7 +281,8 @@ pub fn exec_c06(_prop: &str, v: &Value) -> Report {
             "n={} shape={}: last destructor ran {} epochs after the flush, bound {}",
             c.n, c.shape, delta, bound
         );
-        violation("C06", "O-latency", "O-latency/late", &d);
+        let sig = if c.band > 5 { "O-latency/not-reclaimed-within-bound/links-from->6-epochs" } else { "O-latency/late" };
+        violation("C06", "O-latency", sig, &d);
     }
     // a few more rounds: nothing reachable from the held node may go away
     for _ in 0..8 {
@@ -316,6 +322,7 @@ pub fn exec_c06(_prop: &str, v: &Value) -> Report {
     rep.count("epochs_to_reclaim", delta as u64);
     rep.count("rounds", rounds);
     rep.label(["chain", "tree", "comb", "chain", "comb-leaf-first", "spine-with-twigs"][c.shape as usize % 6]);
+    rep.label(if c.band <= 2 { "links-from-1..3-epochs" } else if c.band <= 5 { "links-from-4..6-epochs" } else { "links-from-10..256-epochs" });
     if held.len() == 1 {
         rep.label("one-external-holder");
     } else if held.len() > 1 {
